@@ -155,6 +155,48 @@ func runC12(p *Prog, r *Report) {
 	if want("C12.5") {
 		ruleDamageReported(p, r, "C12.5")
 	}
+	if want("C12.6") {
+		r.Begin("C12.6", "E-GUARD", "a journal ends cleanly only BETWEEN records: Reader.nextChunk latches io.EOF only when called for the first chunk of a record (first == true); running out of data while a record's continuation is expected is reported through corrupt() (singleReader.Read turns io.EOF into 'record complete', so a clean EOF mid-record would hand a prefix of a batch to the replay)", 2)
+		if fn := resolveFn(p, r, "leveldb/journal", "(*Reader).nextChunk"); fn != nil {
+			first := boolAtom("first", mParam("first"))
+			cleanEOF := func(in ssa.Instruction) bool {
+				isEOF := func(v ssa.Value) bool {
+					u, ok := stripConv(v).(*ssa.UnOp)
+					if !ok {
+						return false
+					}
+					g, ok := u.X.(*ssa.Global)
+					return ok && g.Pkg != nil && g.Pkg.Pkg.Path() == "io" && g.Name() == "EOF"
+				}
+				switch x := in.(type) {
+				case *ssa.Store:
+					return isFieldAddr(x.Addr, "leveldb/journal.Reader", "err") && isEOF(x.Val)
+				case *ssa.Return:
+					return len(x.Results) == 1 && isEOF(x.Results[0])
+				}
+				return false
+			}
+			checkGuard(p, r, GuardSpec{Rule: "clean-eof-only-between-records", Fn: fn, Target: cleanEOF, TargetDesc: "reporting a clean end of journal (io.EOF)", Atoms: []Atom{first}, G: func(a []bool) bool { return a[0] }, GDesc: "first == true (no record in progress)", MinTargets: 2})
+		}
+		if fn := resolveFn(p, r, "leveldb/journal", "(*singleReader).Read"); fn != nil {
+			// and the only EOF a record reader produces itself is at r.last
+			last := boolAtom("r.last", mFieldLoad("leveldb/journal.Reader", "last"))
+			retEOF := func(in ssa.Instruction) bool {
+				ret, ok := in.(*ssa.Return)
+				if !ok || len(ret.Results) != 2 {
+					return false
+				}
+				u, ok := stripConv(ret.Results[1]).(*ssa.UnOp)
+				if !ok {
+					return false
+				}
+				g, ok := u.X.(*ssa.Global)
+				return ok && g.Name() == "EOF"
+			}
+			checkGuard(p, r, GuardSpec{Rule: "record-complete-only-after-last-chunk", Fn: fn, Target: retEOF, TargetDesc: "return 0, io.EOF (record complete)", Atoms: []Atom{last}, G: func(a []bool) bool { return a[0] }, GDesc: "the last chunk of the record was consumed", MinTargets: 1})
+		}
+		r.End()
+	}
 }
 
 // ruleDamageReported: once nextChunk has a chunk header in front of it (j+headerSize <= n), the
